@@ -55,7 +55,7 @@ class BuilderWorld(World):
         for _ in range(rng.range(6, 24)):
             k = rng.below(100)
             if k < 55:
-                op = {"k": "add", "name": rng.choice(["a", "b", "c", "d"]),
+                op = {"k": "add", "name": rng.choice(["a", "b", "c", "d", "0", "1"]),
                       "w": rng.choice([0, 1, dw - 1, dw, dw + 1, 2 * dw, 3 * dw, 4 * dw + 1]),
                       "off": None if rng.chance(0.6) else rng.below((1 << aw) * (dw // g) + 2)}
                 f = rng.below(100)
@@ -71,7 +71,7 @@ class BuilderWorld(World):
                         depth -= min(depth, op["unwind"])
                 ops.append(op)
             elif k < 72 and depth < 3:
-                sc = rng.choice(["x", "y", 0, 1, "a"])
+                sc = rng.choice(["x", "y", 0, 1, "a", "0", "1"])
                 if rng.chance(0.08):
                     sc = rng.choice(["", -1, None])
                 ops.append({"k": "enter", "scope": sc, "idx": isinstance(sc, int) if sc is not None
